@@ -308,7 +308,7 @@ pub fn scenario_clause(name: &str, edges: usize, op: &str, ft: &str) -> String {
     format!("C03 scenario-does-not-return {name} edges={edges} ft={ft} {op}")
 }
 
-fn sweep_scenarios(st: &Stats, sizes: &[usize], limit_s: u64) {
+fn sweep_scenarios(st: &Stats, sizes: &[usize], limit_s: u64, big_ops_only: bool) {
     let mut jobs = vec![];
     for &sz in sizes {
         for name in SCENARIOS {
@@ -316,6 +316,9 @@ fn sweep_scenarios(st: &Stats, sizes: &[usize], limit_s: u64) {
                 for ft in ["f64", "f32"] {
                     if ft == "f32" && sz > 100_000 {
                         continue; // 2*10^6/4 rectangles are not exactly representable stacks in f32
+                    }
+                    if big_ops_only && sz >= 1_000_000 && !(op == geo_booleanop::boolean::Operation::Intersection || op == geo_booleanop::boolean::Operation::Union) {
+                        continue; // quick tier: the 10^6-edge scenarios for intersection and union only
                     }
                     jobs.push((name, sz, op_name(op), ft));
                 }
@@ -542,9 +545,11 @@ pub fn run(tier: &str) -> i32 {
         );
     }
     if thorough {
-        sweep_scenarios(&st, &[10_000, 100_000, 1_000_000], 900);
+        sweep_scenarios(&st, &[10_000, 100_000, 1_000_000, 3_000_000], 900, false);
+    } else if da {
+        sweep_scenarios(&st, &[100_000], 120, true);
     } else {
-        sweep_scenarios(&st, if da { &[100_000] } else { &[10_000, 100_000] }, 120);
+        sweep_scenarios(&st, &[10_000, 100_000, 1_000_000], 120, true);
     }
     finish(
         &st,
